@@ -189,17 +189,21 @@ fn explore(ctx: &Ctx) -> Outcome {
         .reduce(Tally::new, Tally::merge);
     layers.push(json!({"family": "length sweep (names/strings of length 0..=48, shared or not) + long multi-byte strings", "contents": extra.len(), "completed": true}));
     total.absorb(t);
-    // large archives (tables and text beyond 64 KiB)
-    for c in binfam::big_cases() {
-        let mut t = Tally::new();
-        t.cases += 1;
-        t.nontrivial += 1;
-        if let Some((sig, summary)) = judge(&c, &mut t, 2, 2, 1) {
-            t.violate(format!("big:{}", sig), summary, json!({"big": format!("{:?}/{} bytes", c.endian, c.size())}));
-        }
-        total.absorb(t);
-    }
-    layers.push(json!({"family": "large archives (300 and 20 000 cells, strings/pointers/labels interleaved)", "archives": binfam::big_cases().len(), "completed": true}));
+    // large archives (tables and text beyond 64 KiB; a ladder of cell counts)
+    let bigs = binfam::big_cases();
+    let t = bigs
+        .par_iter()
+        .fold(Tally::new, |mut t, c| {
+            t.cases += 1;
+            t.nontrivial += 1;
+            if let Some((sig, summary)) = judge(c, &mut t, 2, 2, 1) {
+                t.violate(format!("big:{}", sig), summary.chars().take(500).collect::<String>(), json!({"big": format!("{:?}/{} bytes", c.endian, c.size())}));
+            }
+            t
+        })
+        .reduce(Tally::new, Tally::merge);
+    total.absorb(t);
+    layers.push(json!({"family": "large archives (cell counts 100..20 000 on a 2^k±1 ladder, strings/pointers/labels interleaved)", "archives": bigs.len(), "completed": true}));
     // tie cases: many fresh instances each
     let ties = tie_cases();
     let t = ties
